@@ -10,7 +10,8 @@ EXPLANATION = (
     "from enumerate() of the input, collect (index, result) pairs whose index is the popped element's index, sort that "
     "list by the index component ascending after the loop, and return the projected results; bulk_put(_string) call "
     "self.put once per element of a copy of the batch with that element's key and value; put_from_iter calls put_kt in "
-    "a loop over the argument iterator with no reordering adaptor.")
+    "a loop over the argument iterator with no reordering adaptor; no impl of the trait in the lib overrides a provided "
+    "method; the batch position is not narrowed by an integer cast.")
 NOT_DECIDED = ("equality of the resulting map states (that is C01 composed with this delegation); behaviour for batches with "
                "repeated keys beyond what the property states.")
 ASSUMPTIONS = ["slice::sort_by / sort_unstable_by, Vec::pop/push, Iterator::enumerate/map/collect behave as documented"]
